@@ -430,6 +430,8 @@ def judge_into(events, sm):
             if e.get('harness_error'):
                 sm.harness_errors.append(e['what'])
             sm.inconclusive += 1
+            if "'structure'" in str(e['what'][0]):
+                sm.notes['inconclusive-real-structure-case'] = sm.notes.get('inconclusive-real-structure-case', 0) + 1
             if len(sm.inconclusive_examples) < 8:
                 sm.inconclusive_examples.append(e['what'])
     events = [e for e in events if e['kind'] != 'inconclusive']
